@@ -217,6 +217,22 @@ theorem metadata_all (f : Fn) :
       (decorate d f).name = f.name ∧ (decorate d f).doc = f.doc ∧ (decorate d f).wrapped = f.id :=
   fun _ _ => ⟨rfl, rfl, rfl⟩
 
+/-- C18.metadata_stacked: decorators applied on top of each other (any number, any of the seven, in any order): the
+outermost object still carries the original function's name and docstring, and every layer's `__wrapped__` refers to
+the object it was applied to – peeling the layers one by one reaches the original function, no layer is skipped. -/
+theorem metadata_stacked (ds : List (Deco × Nat)) (f : Fn) :
+    (stackFn ds f).name = f.name ∧ (stackFn ds f).doc = f.doc ∧
+    ∀ d i rest, ds = (d, i) :: rest →
+      (decorate d (stackFn rest f)).wrapped = (stackFn rest f).id ∧ (stackFn ds f).id = i := by
+  induction ds with
+  | nil => exact ⟨rfl, rfl, fun _ _ _ h => by cases h⟩
+  | cons x rest ih =>
+    obtain ⟨d, i⟩ := x
+    refine ⟨ih.1, ih.2.1, ?_⟩
+    intro d' i' rest' h
+    cases h
+    exact ⟨rfl, rfl⟩
+
 /-! ## non-vacuity -/
 
 /-- a function that raises, leaks a state block and records a metric, called through `asynchronous` inside a scope -/
